@@ -343,6 +343,16 @@ class TStruct(T):
         return "Struct(%s)" % getattr(self.cls, "__name__", self.cls)
 
 
+class TDict(T):
+    """A dict with a fixed, known set of (string) keys and typed symbolic values (e.g. Operation.attrs)."""
+
+    def __init__(self, **fields):
+        self.fields = fields
+
+    def __repr__(self):
+        return "Dict%r" % (sorted(self.fields),)
+
+
 class TObj(T):
     def __init__(self, cls):
         self.cls = cls
